@@ -83,16 +83,31 @@ KINDS = {"mr": "MarginalRateTaxScale", "la": "LinearAverageRateTaxScale",
 
 
 def mk(kind: str, ins):
-    """real scale built with add_bracket in the given order (floats, like the YAML loader gives)"""
+    """real scale built with add_bracket in the given order (floats, like the YAML loader gives);
+    every other scale carries non-default name / option / unit metadata (never part of a result)"""
     from openfisca_core import taxscales
-    s = getattr(taxscales, KINDS[kind])()
+    cls = getattr(taxscales, KINDS[kind])
+    if (len(ins) + sum(t.numerator for t, _ in ins)) % 2:
+        s = cls(name="scale", option="main-option", unit="currency")
+    else:
+        s = cls()
     for t, r in ins:
         s.add_bracket(float(t), float(r))
     return s
 
 
-def arr(bases):
+def split_bases(text: str):
+    """`i:` prefix = integer array on the implementation side"""
+    if text.startswith("i:"):
+        return True, parse_vals(text[2:])
+    return False, parse_vals(text)
+
+
+def arr(bases, ints: bool = False):
     import numpy
+    if ints:
+        dt = numpy.int32 if len(bases) % 2 else numpy.int64
+        return numpy.array([int(b) for b in bases], dtype=dt)
     return numpy.array([float(b) for b in bases], dtype=numpy.float64)
 
 
